@@ -4,7 +4,7 @@ for C14, ...)."""
 from .model import Schema, T, L, NN, BUILTIN_SCALARS
 from . import names
 
-ENUM_VALUE_POOL = ["RED", "GREEN", "blue", "darkGray", "light_pink", "V1", "Mixed_Case", "NOT_FOUND", "a", "Http2", "in_progress"]
+ENUM_VALUE_POOL = ["RED", "GREEN", "blue", "darkGray", "light_pink", "V1", "Mixed_Case", "NOT_FOUND", "a", "Http2", "in_progress", "type", "match", "in", "async"]
 CUSTOM_SCALARS = ["Date", "DateTime", "URL", "json_blob"]
 FIELD_STYLES = ["f%d", "fieldName%d", "snake_name%d", "F%d", "_u%d", "SCREAM_%d", "PascalName%d", "x%dY"]
 DEPRECATION_REASONS = [None, "use other", "with \"quotes\" and \\ backslash", "line one\nline two", "unicode é ☃", "", "trailing space ", "  leading"]
@@ -31,6 +31,22 @@ def wrap(rng, t, allow_list=True, weights=None):
     if r < 0.97:
         return NN(L(NN(L(t))))
     return L(NN(L(NN(t))))
+
+
+def input_defaults(s, fields, r):
+    """default values for some input fields (schema-level only: the generator ignores them in both front-ends)"""
+    out = {}
+    for fname, t in fields:
+        t0 = t[1] if t[0] == "nn" else t
+        if t0[0] != "named" or r.random() > 0.3:
+            continue
+        b = t0[1]
+        lit = {"Int": "5", "Float": "1.5", "String": '"dflt"', "Boolean": "true", "ID": '"id0"'}.get(b)
+        if lit is None and b in s.types and s.types[b]["kind"] == "enum" and s.types[b]["values"]:
+            lit = s.types[b]["values"][0]
+        if lit is not None:
+            out[fname] = lit
+    return out
 
 
 class SchemaGen:
@@ -100,6 +116,8 @@ class SchemaGen:
                 fields.append([fname, t])
             s.types[n]["fields"] = fields
             s.types[n]["one_of"] = one_of
+            if not one_of:
+                s.types[n]["defaults"] = input_defaults(s, fields, r)
         for i in ifaces:
             s.add(i, {"kind": "interface", "fields": self.rand_fields(r.randint(1, 3))})
         for o in objs:
